@@ -1,5 +1,11 @@
 """C01 — trash-put conserves data: each argument ends fully trashed or untouched."""
-from ..putfamily import replay_family, run_family
+import json
+import os
+
+from ..core import Check, audit
+from ..lean import VERIF
+from ..putfamily import absorb, eval_task, replay_family, search_failing_input
+from ..runner import run_tasks, unjsonable
 
 CFG = {"oracles": ("C01", "C04"), "violations": ("C01",), "profile": "mixed", "states": False}
 LEVEL_NOTE = ("theorems are about the resolved-layer core of Model/Put.lean run on Model/FS.lean (kernel semantics of "
@@ -9,12 +15,31 @@ RULE = ("seeded random worlds: 1-4 arguments of kinds file/empty/tree/symlink(fi
         "(relative, absolute, './', trailing slashes, 'd/../x', '//abs', through a symlinked parent, 'link/../x'), dot "
         "entries, missing paths, mount points; options -f/-i(+replies)/--trash-dir/--home-fallback; 1-5 volumes with "
         "every state of .Trash and .Trash-uid and pre-populated trash directories; a world is non-trivial when the run "
-        "issued a mutating call or printed a diagnostic; distinct by (args, options, cwd, mounts, size)")
+        "issued a mutating call or printed a diagnostic; distinct by (args, options, cwd, mounts, size); plus 2-3 real "
+        "trash-put processes interleaved call by call under seeded schedules (quick 80, thorough 2000 runs), oracle C01 on "
+        "the final state")
 
 
 def run(tier, seed):
-    return run_family("C01", tier, seed, CFG, 400, 6000, LEVEL_NOTE, RULE)
+    ck = Check("C01", tier, seed)
+    info = audit("C01")
+    n = 400 if tier == "quick" else 6000
+    tasks = []
+    corpus = os.path.join(VERIF, "corpus", "C01")
+    if os.path.isdir(corpus):
+        for f in sorted(os.listdir(corpus)):
+            w = unjsonable(json.load(open(os.path.join(corpus, f))))
+            tasks.append({"pid": "C01", "seed": seed, "i": -1, "cfg": CFG, "world": w.get("world", w)})
+    tasks += [{"pid": "C01", "seed": seed, "i": i, "cfg": CFG} for i in range(n)]
+    absorb(ck, "C01", run_tasks(eval_task, tasks), CFG, "Model.Put")
+    # conservation must also hold when several trash-put processes share a trash directory
+    from . import parworlds
+    parworlds.add_concurrent(ck, tier, seed + 101, oracles=("C01", "no-traceback", "exit", "confinement"), n_quick=80, n_thorough=2000)
+    search_failing_input(ck, "C01", seed, CFG, n, "Model.Put")
+    return ck.finish(info, LEVEL_NOTE, RULE)
 
 
 def replay(path):
-    return replay_family("C01", path, CFG)
+    from . import parworlds
+    rc = parworlds.replay_concurrent("C01", path, oracles=("C01", "no-traceback", "exit", "confinement"))
+    return rc if rc is not None else replay_family("C01", path, CFG)
